@@ -457,6 +457,56 @@ pub fn run(ctx: &mut Ctx) -> (&'static str, String, bool) {
         }
         ctx.merge(p);
     }
+    // ---- IS_MSO as LFS sends it: "name : text" where the name may carry colour codes, escaped carets and codepage
+    //      markers, TextStart = the wire offset at which the typed text starts. The typed `textstart` is documented as the
+    //      index of that text in `msg`, so msg[..textstart] must be the decoded name part, whatever it is made of -----------
+    {
+        let mut p = Part::new();
+        let names: [&[u8]; 14] = [b"joe", b"^Ljoe", b"^Ejoe^L", b"^7joe^9", b"j^^oe", b"^Cjoe", b"^J\x83\x5e", b"^E\xec", b"^Ljoe^8", b"^T^Ljoe", b"^1a^2b^3c", b"^J\x82\xa0^Lx", b"^Hjoe", b"[^Gab] ^Lcd"];
+        let seps: [&[u8]; 3] = [b" ^7: ^8", b": ", b""];
+        let texts: [&[u8]; 6] = [b"hello", b"^Lhi", b"^J\x82\xa0", b"", b"^^", b"a^Eb\xec"];
+        for name in names {
+            for sep in seps {
+                for text in texts {
+                    let pfx: Vec<u8> = [name, sep].concat();
+                    let raw: Vec<u8> = [&pfx[..], text].concat();
+                    let expect_pfx = guarded(|| insim_core::string::codepages::to_lossy_string(&pfx).to_string());
+                    let expect_all = guarded(|| insim_core::string::codepages::to_lossy_string(&raw).to_string());
+                    let (Ok(expect_pfx), Ok(expect_all)) = (expect_pfx, expect_all) else { continue };
+                    if !expect_all.starts_with(&expect_pfx) || expect_pfx.len() > 255 {
+                        continue;
+                    }
+                    for compressed in MODES {
+                        let mut body = vec![0u8, 11, 0, 0, 3, 5, 1, pfx.len() as u8];
+                        body.extend_from_slice(&raw);
+                        body.push(0);
+                        while body.len() % 4 != 0 {
+                            body.push(0);
+                        }
+                        body[0] = if compressed { (body.len() / 4) as u8 } else { body.len() as u8 };
+                        p.evaluations += 1;
+                        p.distinct(&(compressed, &body));
+                        match real_decode(&body, compressed) {
+                            Dec::Packet(insim::Packet::Mso(m), _) => {
+                                if m.msg != expect_all || m.textstart as usize != expect_pfx.len() {
+                                    p.violation(
+                                        "C02/MSO/TextStart/decode-offset",
+                                        format!("MSO {} frame {}: Msg decodes to {:?} with textstart {}, but the {} wire bytes before the typed text decode to {:?} ({} bytes) and the whole message to {:?}", mode_name(compressed), hex(&body), m.msg, m.textstart, pfx.len(), expect_pfx, expect_pfx.len(), expect_all),
+                                        json!({"frame": hex(&body), "mode": mode_name(compressed)}),
+                                    );
+                                }
+                            },
+                            Dec::Packet(other, _) => p.violation("C02/MSO/TextStart/decode-offset", format!("MSO frame {} decodes to {:?}", hex(&body), other), json!({"frame": hex(&body)})),
+                            Dec::Err(e, _) => p.violation("C02/MSO/decode-error", format!("MSO {} frame {} as LFS sends it is rejected: {e}", mode_name(compressed), hex(&body)), json!({"frame": hex(&body)})),
+                            Dec::Panic(e) => p.violation("C02/MSO/decode-panic", format!("MSO frame {} panics: {e}", hex(&body)), json!({"frame": hex(&body)})),
+                            Dec::NeedMore => p.violation("C02/MSO/decode-error", format!("MSO {} frame {} is complete but the decoder asks for more", mode_name(compressed), hex(&body)), json!({"frame": hex(&body)})),
+                        }
+                    }
+                }
+            }
+        }
+        ctx.merge(p);
+    }
     ctx.assume("ref/insim_v9.spec is a faithful transcription of InSim.txt v9 and the InSim-Relay document (not available in the sandbox)");
     ctx.assume("text in C02 is ASCII shorter than its field (variable fields: length not a multiple of 4): placement only; terminators are C11's, tables C10's");
     (
